@@ -1,6 +1,6 @@
 HP_P = 'hp:slot,gops_k1,gops_k2,gops_k3,acq_k2,acq_k3,acq_int_k1,acq_int_k2,acq_int_k3,acq_int_k5'
 PROP = dict(
-  units=['he:g_ctor_K1,g_assign_K1,g_reset_swap_reclaim_K1,g_acquire_K1,g_acquire_if_equal_K1,int_acquire_K1,int_acquire_if_equal_K1,g_ctor_K2,g_assign_K2,g_reset_swap_reclaim_K2,g_acquire_K2,g_acquire_if_equal_K2,int_acquire_K2,int_acquire_if_equal_K2,g_ctor_K3,g_assign_K3,g_reset_swap_reclaim_K3,g_acquire_K3,g_acquire_if_equal_K3,int_acquire_K3,int_acquire_if_equal_K3', 'hpscan', HP_P, 'ebr', 'qsbr', 'lfrc', 'stampit_guard'],
+  units=['he:g_ctor_K1,g_assign_K1,g_reset_swap_reclaim_K1,g_acquire_K1,g_acquire_if_equal_K1,int_acquire_K1,int_acquire_if_equal_K1,g_ctor_K2,g_assign_K2,g_reset_swap_reclaim_K2,g_acquire_K2,g_acquire_if_equal_K2,int_acquire_K2,int_acquire_if_equal_K2,g_ctor_K3,g_assign_K3,g_reset_swap_reclaim_K3,g_acquire_K3,g_acquire_if_equal_K3,int_acquire_K3,int_acquire_if_equal_K3', 'hpscan', HP_P, 'ebr', 'qsbr', 'lfrc', 'stampit_guard', 'stampq'],
   level='other',
   strict_obligations=True,
   obligations=['he.acquire.protects', 'he.acquire_if_equal.protects', 'he.acquire.era_stable', 'he.acquire.sync', 'he.sync.publish_then_fence', 'he.acquire.snapshot', 'he.acquire.exc_safe', 'he.acquire_if_equal.exc_safe', 'he.count.exact', 'he.guard_ops.others_intact',
@@ -14,12 +14,14 @@ PROP = dict(
                'qsbr.guard.region_balance', 'qsbr.epochs.at_least_three',
                'lfrc.layout', 'lfrc.acquire.inc_then_validate', 'lfrc.decrement.claims_once', 'lfrc.decrement.holds_reference', 'lfrc.reset.destroy_iff_claimed',
                'lfrc.new.reinit_count', 'lfrc.freelist.pop_owns', 'lfrc.sync.orders', 'lfrc.guard.algebra',
-               'stamp.region.balanced', 'stamp.acquire.enter_before_load', 'stamp.retire.stamped_with_head', 'stamp.free.below_tail'],
+               'stamp.region.balanced', 'stamp.acquire.enter_before_load', 'stamp.retire.stamped_with_head', 'stamp.free.below_tail',
+               'stampq.push.fresh_stamp', 'stampq.push.links', 'stampq.push.publish_order', 'stampq.remove.unlinks', 'stampq.remove.last_iff', 'stampq.remove.flags_own_stamp', 'stampq.tail_stamp.lower_bound',
+               'stampq.update_tail.source', 'stampq.mid.*', 'stampq.cas.*', 'stampq.store.own_only', 'stampq.sync.*', 'stampq.encoding.flags', 'stampq.marks.tag_inc', 'stampq.ctor.empty_queue'],
   explanation='Per scheme a protect side (what a non-empty guard has established in shared state when acquire/acquire_if_equal/copy returns, INT mode with the source cell rewritten arbitrarily) '
               'and a reclaim side (under which observed condition delete_self may run: epoch distance, scan result, stamp <= tail, reference count claim), each as contracts on the extracted text. '
               'The step from these per-function facts to "no protected object is destroyed in any interleaving" is the published proof of each scheme and is an assumed lemma.',
   assumptions=['composition lemma per scheme: Michael 2004 (HP), Ramalhete & Correia 2017 (HE), Fraser 2004 / Hart et al. 2007 / Brown 2015 (EBR, DEBRA), Poeter & Traeff 2018 (stamp-it), Valois 1995 / Michael & Scott 1995 (LFRC)',
-               'stamp_it thread_order_queue::{push,remove,head_stamp,tail_stamp,...} is trusted (stub contract: tail stamp <= stamp of every block in the list)',
+               'stamp_it thread_order_queue: its sequential specification (fresh stamps from one seq_cst counter, push links newest, remove unlinks and reports was-last, tail_stamp() <= every stamp in the list < head_stamp()) is proved for the real text from quiescent and from enumerated stalled-thread states (unit stampq) together with the commit-point discipline of every CAS/store; that its operations are linearizable w.r.t. this specification under arbitrary interleavings is the argument of the Stamp-it paper and assumed',
                'weak-memory part only as sync obligations (orders at least what the numbered comments require); INT mode sequentially consistent',
                'helper lists (retire_list, orphan, thread_block_list, delete_objects) are contract stubs in ebr/qsbr/lfrc and under contract in units rlist/tbl when present',
                'shapes: K in {1,2,3,5}, thread entries E <= 3, list nodes L <= 3'],
